@@ -210,6 +210,7 @@ static int
 _warc_rdhdr(struct archive_read *a, struct archive_entry *entry)
 {
 #define HDR_PROBE_LEN		(12U)
+#define HDR_MAX_LEN		(65536)
 	struct warc_s *w = a->format->data;
 	unsigned int ver;
 	const char *buf;
@@ -246,6 +247,18 @@ start_over:
 	}
  	/* looks good so far, try and find the end of the header now */
 	eoh = _warc_find_eoh(buf, nrd);
+	while (eoh == NULL && nrd < HDR_MAX_LEN) {
+		/* the header may continue in the next block of the
+		 * byte source: ask for more than we were given */
+		ssize_t more;
+		const char *p = __archive_read_ahead(a, nrd + 1, &more);
+
+		if (p == NULL)
+			break;
+		buf = p;
+		nrd = more;
+		eoh = _warc_find_eoh(buf, nrd);
+	}
 	if (eoh == NULL) {
 		/* still no good, the header end might be beyond the
 		 * probe we've requested, but then again who'd cram
